@@ -281,6 +281,73 @@ def _stage_of(term):
     return None
 
 
+def _eff_range(t, leaf, cap):
+    """Effective [start, end) within the underlying array of a (possibly nested) slice term, ranges evaluated under leaf."""
+    t = pat.strip(t)
+    while isinstance(t, tuple) and t and t[0] in ("ref", "deref"):
+        t = t[1]
+    if isinstance(t, tuple) and t and (t[0] == "index" or (t[0] == "call" and str(t[1]).endswith(("::index", "Index::index", "index_mut")))):
+        base = t[1] if t[0] == "index" else t[2][0]
+        rg = t[2] if t[0] == "index" else t[2][1]
+        s0, e0 = _eff_range(base, leaf, cap)
+        rg = pat.strip(rg)
+        if isinstance(rg, tuple) and rg and rg[0] == "agg":
+            kind, ops = str(rg[1]), rg[2]
+            if kind.endswith("Range::Range") and len(ops) == 2:
+                return s0 + pat.eval_term(ops[0], leaf), s0 + pat.eval_term(ops[1], leaf)
+            if kind.endswith("RangeTo") and len(ops) == 1:
+                return s0, s0 + pat.eval_term(ops[0], leaf)
+            if kind.endswith("RangeFrom") and len(ops) == 1:
+                return s0 + pat.eval_term(ops[0], leaf), e0
+            if kind.endswith("RangeFull"):
+                return s0, e0
+        raise pat.NotEvaluable(t)
+    return 0, cap
+
+
+def _compaction_by_eval(b, tm, c, blk, v, st):
+    """set_position(v) after the unconsumed staged bytes were moved to the front, decided under valuations of (end E of the
+    staged bytes, consumed K <= E): v = E - K, and a dominating copy moves exactly [K, E) to [0, E - K) of the same array
+    (copy_from_slice from a snapshot, or copy_within)."""
+    def leaf_of(E, K):
+        def lf(q):
+            if q[0] == "call" and q[1].endswith("Cursor::position"):
+                if pat.has_call(q, "Cursor::new"):
+                    return K            # the temporary reader over the staged bytes: how much the decoder consumed
+                if _stage_of(q) == st:
+                    return E
+            if q[0] == "arg" and b.locals[q[1]].ty.k == "uint" and getattr(b, "spliced", False):
+                raise pat.NotEvaluable(q)
+            raise pat.NotEvaluable(q)
+        return lf
+    pts = [(5, 0), (5, 2), (20, 7), (20, 20), (1, 1)]
+    try:
+        if not all(pat.eval_term(v, leaf_of(E, K)) == E - K for E, K in pts):
+            return False
+        for x in b.calls():
+            nm = flow.callee(x.term) or ""
+            if not c.dominates(x.idx, blk.idx):
+                continue
+            if nm.endswith("copy_from_slice") and len(x.term.args) == 2:
+                d, s_ = tm.of_operand(x.term.args[0]), tm.of_operand(x.term.args[1])
+                if _stage_of(d) != st or _stage_of(s_) != st:
+                    continue
+                if all(_eff_range(d, leaf_of(E, K), 20) == (0, E - K) and _eff_range(s_, leaf_of(E, K), 20) == (K, E) for E, K in pts):
+                    return True
+            if nm.endswith("copy_within") and len(x.term.args) == 3:
+                d = tm.of_operand(x.term.args[0])
+                if _stage_of(d) != st:
+                    continue
+                rg = pat.strip(tm.of_operand(x.term.args[1]))
+                if rg[0] == "agg" and str(rg[1]).endswith("Range::Range") and all(
+                        (pat.eval_term(rg[2][0], leaf_of(E, K)), pat.eval_term(rg[2][1], leaf_of(E, K)),
+                         pat.eval_term(tm.of_operand(x.term.args[2]), leaf_of(E, K))) == (K, E, 0) for E, K in pts):
+                    return True
+    except (pat.NotEvaluable, pat.Overflow, IndexError, TypeError):
+        return False
+    return False
+
+
 def rule_staging(facts):
     r = report.RuleResult("C05.R3", "staged bytes: slices handed to readers end at the fill position; positions move only by fill / compaction / drain")
     _fill_caps(facts)
@@ -404,9 +471,13 @@ def rule_staging(facts):
                 cons_ok = pat.has_call(consumed, "Cursor::position") and pat.has_call(consumed, "Cursor::new") and _stage_of(consumed) == st
                 if okk and cons_ok:
                     r.ok("term", {"fn": fn, "%s compaction" % st: "[consumed, end) moved to the front, position = end - consumed"})
+                elif _compaction_by_eval(b, tm, c, blk, v, st):
+                    r.ok("evaluation", {"fn": fn, "%s compaction" % st: "[consumed, end) moved to the front, position = end - consumed"})
                 else:
                     r.bad("%s|compaction:%s" % (fn, st), "`%s` position is set to %s without moving the unconsumed bytes [consumed, end) to the front"
                           % (st, flow.show(v)[:80]), where)
+            elif _compaction_by_eval(b, tm, c, blk, v, st):
+                r.ok("evaluation", {"fn": fn, "%s compaction" % st: "[consumed, end) moved to the front, position = end - consumed"})
             else:
                 r.bad("%s|position:%s" % (fn, st), "unrecognised update of the `%s` fill position: %s" % (st, flow.show(v)[:100]), where, "unverifiable")
     r.sites = nsl + nsp
